@@ -76,6 +76,17 @@ def corpus():
     cs.append(_hist([[0.1, 0.2, 0.30000000000000004, 0.7]], 7, "uniform", outlier=True, container="array"))
     cs.append(_hist([[5, 6], [7, 8, 9]], 4, "uniform", (5, 9), True))
     cs.append(_hist([[5, 6], [7, 8, 9]], 4, "quantile", (5, 9), False))
+    # very long sequences (beyond any plausible size threshold 1k..64k that could select another binning path)
+    # whose values sit ON the breaks, the training extremes and the absolute bounds: the row must still be the
+    # (lo, hi]-count of the model, and equal the sum of the rows of its chunks (Props/C20 counts_append)
+    Xl = [[0, 1, 2, 3, 4, 5, 6, 7, 8, 9, 10, 11, 12]]
+    for n_long in (10001, 12007, 70001):
+        long_seq = [i % 15 - 1 for i in range(n_long)]                      # -1..13: outliers on both sides too
+        for strategy, r, outl in (("uniform", ("-inf", "inf"), False), ("uniform", (0, 12), True),
+                                  ("quantile", (0, "inf"), False), ("uniform", (-1, 13), False)):
+            if n_long > 20000 and strategy == "quantile":
+                continue
+            cs.append(_hist(Xl, 4, strategy, r, outl, Xt=[long_seq, long_seq[:5000], long_seq[5000:]]))
     Xk = [[1.0, 2.0, 3.0, 10.0], [2.0, 2.0, 5.5]]
     for k in KERNELS:
         cs.append(_kde(Xk, 5, k, 1.5, "density", Xt=[[100.0, 200.0], [3.0, 1.0, 2.0]], perms=[1, 2, 3]))
